@@ -78,13 +78,14 @@ impl<const N: usize> io::Write for FailSink<N> {
 }
 
 #[inline(always)]
-fn stream_faults<E: mp::Encodable, const BL: usize>(body: &E, prop_key_ok: bool) {
+fn stream_faults<E: mp::Encodable, const BL: usize>(body: &E, from: usize, to: usize) {
     let mut good = ArrSink::<BL>::new();
     let r0 = body.encode(&mut good);
     vassert!(r0.is_ok() && good.len == BL && !good.overflow, "C14|stream.reference|reference encoding has an unexpected size");
     done(r0);
-    let mut limit = 0;
-    while limit < BL {
+    // fault positions from..to (the positions of a body are split over several harnesses)
+    let mut limit = from;
+    while limit < to && limit < BL {
         let mut z = 0;
         while z < 2 {
             let mut sink = FailSink::<BL> { buf: [0u8; BL], len: 0, limit, zero: z == 1, kind: io::ErrorKind::BrokenPipe };
@@ -104,11 +105,10 @@ fn stream_faults<E: mp::Encodable, const BL: usize>(body: &E, prop_key_ok: bool)
         }
         limit += 1;
     }
-    let _ = prop_key_ok;
-    vcover!(true, "all fault positions");
+    vcover!(true, "all fault positions of this range");
 }
 
-pub fn stream_v3_publish(s: &mut Src) {
+fn stream_v3_publish_r(s: &mut Src, from: usize, to: usize) {
     let pid = s.u16();
     let t = s.u8();
     let pay: [u8; 2] = s.bytes();
@@ -118,10 +118,12 @@ pub fn stream_v3_publish(s: &mut Src) {
         topic_name: mp::TopicName::try_from(unsafe { String::from_utf8_unchecked(vec![t]) }).unwrap(),
         payload: Bytes::copy_from_slice(&pay),
     };
-    stream_faults::<_, 7>(&body, true);
+    stream_faults::<_, 7>(&body, from, to);
     done(body);
 }
-pub fn stream_v3_connect(s: &mut Src) {
+pub fn stream_v3_publish_a(s: &mut Src) { stream_v3_publish_r(s, 0, 4) }
+pub fn stream_v3_publish_b(s: &mut Src) { stream_v3_publish_r(s, 4, 7) }
+fn stream_v3_connect_r(s: &mut Src, from: usize, to: usize) {
     let ka = s.u16();
     let c = s.u8();
     let pw: [u8; 1] = s.bytes();
@@ -129,19 +131,25 @@ pub fn stream_v3_connect(s: &mut Src) {
     let body = mp::v3::Connect { protocol: mp::Protocol::V311, clean_session: true, keep_alive: ka,
         client_id: Arc::new(unsafe { String::from_utf8_unchecked(vec![c]) }), last_will: None,
         username: Some(Arc::new(unsafe { String::from_utf8_unchecked(vec![c]) })), password: Some(Bytes::copy_from_slice(&pw)) };
-    stream_faults::<_, 19>(&body, true);
+    stream_faults::<_, 19>(&body, from, to);
     done(body);
 }
-pub fn stream_v5_puback(s: &mut Src) {
+pub fn stream_v3_connect_a(s: &mut Src) { stream_v3_connect_r(s, 0, 5) }
+pub fn stream_v3_connect_b(s: &mut Src) { stream_v3_connect_r(s, 5, 10) }
+pub fn stream_v3_connect_c(s: &mut Src) { stream_v3_connect_r(s, 10, 15) }
+pub fn stream_v3_connect_d(s: &mut Src) { stream_v3_connect_r(s, 15, 19) }
+fn stream_v5_puback_r(s: &mut Src, from: usize, to: usize) {
     let pid = s.u16();
     let c = s.u8();
     vassume!(pid != 0 && c < 0x80);
     let body = mp::v5::Puback { pid: mp::Pid::try_from(pid).unwrap(), reason_code: mp::v5::PubackReasonCode::NotAuthorized,
         properties: mp::v5::PubackProperties { reason_string: Some(Arc::new(unsafe { String::from_utf8_unchecked(vec![c]) })), user_properties: vec![] } };
-    stream_faults::<_, 8>(&body, true);
+    stream_faults::<_, 8>(&body, from, to);
     done(body);
 }
-pub fn stream_v5_publish(s: &mut Src) {
+pub fn stream_v5_puback_a(s: &mut Src) { stream_v5_puback_r(s, 0, 4) }
+pub fn stream_v5_puback_b(s: &mut Src) { stream_v5_puback_r(s, 4, 8) }
+fn stream_v5_publish_r(s: &mut Src, from: usize, to: usize) {
     let t = s.u8();
     let pay: [u8; 2] = s.bytes();
     let al = s.u16();
@@ -151,14 +159,22 @@ pub fn stream_v5_publish(s: &mut Src) {
         payload: Bytes::copy_from_slice(&pay),
         properties: mp::v5::PublishProperties { payload_is_utf8: None, message_expiry_interval: None, topic_alias: Some(al), response_topic: None,
             correlation_data: None, user_properties: vec![], subscription_id: None, content_type: None } };
-    stream_faults::<_, 9>(&body, true);
+    stream_faults::<_, 9>(&body, from, to);
     done(body);
 }
+pub fn stream_v5_publish_a(s: &mut Src) { stream_v5_publish_r(s, 0, 5) }
+pub fn stream_v5_publish_b(s: &mut Src) { stream_v5_publish_r(s, 5, 9) }
 
 scenarios! {
     #[kani::unwind(14)] c14_to_io_error [1] => to_io_error;
-    #[kani::unwind(10)] c14_stream_v3_publish [5] => stream_v3_publish;
-    #[kani::unwind(22)] c14_stream_v3_connect [4] => stream_v3_connect;
-    #[kani::unwind(11)] c14_stream_v5_puback [3] => stream_v5_puback;
-    #[kani::unwind(12)] c14_stream_v5_publish [5] => stream_v5_publish;
+    #[kani::unwind(10)] c14_stream_v3_publish_a [5] => stream_v3_publish_a;
+    #[kani::unwind(10)] c14_stream_v3_publish_b [5] => stream_v3_publish_b;
+    #[kani::unwind(22)] c14_stream_v3_connect_a [4] => stream_v3_connect_a;
+    #[kani::unwind(22)] c14_stream_v3_connect_b [4] => stream_v3_connect_b;
+    #[kani::unwind(22)] c14_stream_v3_connect_c [4] => stream_v3_connect_c;
+    #[kani::unwind(22)] c14_stream_v3_connect_d [4] => stream_v3_connect_d;
+    #[kani::unwind(11)] c14_stream_v5_puback_a [3] => stream_v5_puback_a;
+    #[kani::unwind(11)] c14_stream_v5_puback_b [3] => stream_v5_puback_b;
+    #[kani::unwind(12)] c14_stream_v5_publish_a [5] => stream_v5_publish_a;
+    #[kani::unwind(12)] c14_stream_v5_publish_b [5] => stream_v5_publish_b;
 }
